@@ -217,7 +217,7 @@ def handleVec (ins outs : List J) : Verdict :=
     match loJ.rat?, hiJ.rat?, nJ.nat?, gJ.rats? with
     | some lo, some hi, some n, some g =>
       let m := linspace lo hi n
-      let tol := 8 * eps * (ratAbs lo + ratAbs hi)
+      let tol := 8 * eps * (ratAbs lo + ratAbs hi) + pow2 (-1073)   -- (and one subnormal step: the quotient is rounded to the subnormal grid)
       verdictOf (if n ≥ 3 then "nt linspace" else "tr linspace")
         [("linspace-length", g.length == n, s!"{g.length}"),
          ("linspace", (g.zip m).all (fun (a, b) => closeR a b tol 0), s!"go={toString (g.map ratStr)}"),
